@@ -316,7 +316,7 @@ class Result:
         return 1 if self.violations else 0
 
 
-def drive(args, timeout=900, binary="drive", env=None):
+def drive(args, timeout=2400, binary="drive", env=None):
     p = run([os.path.join(BIN, binary)] + args, timeout=timeout, env=env)
     if p.returncode != 0:
         raise Infra("driver failed (rc=%d): %s\n%s" % (p.returncode, " ".join(args), (p.stdout + p.stderr)[-3000:]))
